@@ -91,7 +91,8 @@ func c10Leaves(front string) []c10leaf {
 	return out
 }
 
-func C10_Jobs() []string {
+func C10_Jobs() []string { return append(c10_jobs0(), "json-records") }
+func c10_jobs0() []string {
 	return []string{"paths/map", "paths/validate", "paths/json", "missing/map", "missing/json", "flat/json", "flat/zhttp-json", "cross-front-end", "issuepath-stale", "long-slice-paths", "sanitize-root-first", "empty-record/map", "empty-record/nested", "empty-record/json", "issuepath", "sanitize", "first-and-unique/map", "first-and-unique/validate", "root-key", "deep-slices/parse", "deep-slices/validate", "issuepath-on-copy", "empty-tag-paths/parse", "empty-tag-paths/validate", "source-tag-keys", "many-issues-per-path", "path-lengths/parse", "path-lengths/validate"}
 }
 func C10_Covers() []string { return []string{"some-issues"} }
@@ -159,6 +160,10 @@ func c10Check(errs z.ZogIssueMap, leaves []c10leaf, fails map[string]string) {
 }
 
 func C10_Run(job string) {
+	if job == "json-records" {
+		jrCheck("C10")
+		return
+	}
 	a, b, _, _ := split3(job)
 	v.MapOrderChoice(false) // visit order is C09's subject
 	switch a {
